@@ -117,4 +117,18 @@ CHECKS = {
         rule="case = one point of the product; states = distinct cases; transitions = restore calls; non-trivial = every case (each one compares the final target state with the expected one)",
         parts=[dict(pkg="./redis-shake/common", harness=["common"], test="^TestVerif_C02$", shards=16, budget=dict(quick=75, thorough=1500), mem_kb=8*1024*1024)],
     ),
+    "C14": dict(
+        level="model_checking",
+        engine="seqx",
+        technique="breadth-first explicit-state search over target states reachable by sequences of checkpoint writes (deduplicated on the canonical keyspace); the real LoadCheckpoint runs on every distinct state against a model Redis and is compared with a reference function",
+        text="States are built by all words up to the stated depth over an alphabet of checkpoint writes (our source, a source whose address extends ours, an "
+             "unrelated source; three databases; two offsets; every subset of run-id/offset/version fields; versions 0/1/absent), data keys, cleared "
+             "databases and a foreign value under the checkpoint name. The real LoadCheckpoint (real redigo client, dial hook) runs on every distinct state. "
+             "Oracle: a set-valued reference (any database holding the maximal offset of OUR source is acceptable, because the scan order is a Go map order), "
+             "its run id and database or unknown/no database, -1 when none, refusal when that checkpoint's version is too old; afterwards foreign fields and the "
+             "chosen database untouched and our stale fields removed elsewhere.",
+        note="trusts mredis (HGETALL/HDEL/EXISTS/INFO keyspace) and redigo; the reference function is a direct transcription of the statement",
+        rule="state = canonical target keyspace (per database: checkpoint fields, data flag); transition = one write applied to the model state; every distinct state is evaluated once on the real code; non-trivial = the state holds at least one checkpoint field or foreign value (outcome other than 'none')",
+        parts=[dict(pkg="./redis-shake/checkpoint", harness=["checkpoint"], test="^TestVerif_C14$", shards=16, budget=dict(quick=60, thorough=900))],
+    ),
 }
